@@ -4,6 +4,7 @@
 //   lit <id> <string>            FastRational from a decimal/fraction string (base 10)
 //   word <id> <n> <d>            FastRational(word n, uword d)
 //   op <id> <name> <a> [<b>]     value-producing operation on earlier ids
+//   ip <id> <name> <a> [<b>]     in-place operation on the object <a>, which is renamed <id>
 //   q <id> <name> <a> [<b>]      integer/Boolean-producing query
 // One JSON object per line.
 #define private public
@@ -75,6 +76,21 @@ int main() {
                 else throw std::runtime_error("unknown op " + name);
                 vals[id] = r;
                 std::cout << show(id, vals[id]) << std::endl;
+            } else if (cmd == "ip") {
+                // in place: the object stored under <a> is modified and from now on known as <id>; its representation
+                // state (which of the word / GMP parts are valid) is carried along a chain of such operations
+                std::string name; long a = -1, b = -1; is >> name >> a; is >> b;
+                FastRational & x = vals.at(a);
+                if (name == "addassign") x += vals.at(b);
+                else if (name == "subassign") x -= vals.at(b);
+                else if (name == "mulassign") x *= vals.at(b);
+                else if (name == "divassign") x /= vals.at(b);
+                else if (name == "negate") x.negate();
+                else throw std::runtime_error("unknown in-place op " + name);
+                auto node = vals.extract(a);
+                node.key() = id;
+                vals.insert(std::move(node));
+                std::cout << show(id, vals.at(id)) << std::endl;
             } else if (cmd == "q") {
                 std::string name; long a = -1, b = -1; is >> name >> a; is >> b;
                 FastRational const & x = vals.at(a);
